@@ -355,7 +355,24 @@ class Gen:
         name = self.fresh() if (not fs or r.chance(1, 2)) else r.choice(fs)         # a fresh variable, or the name of a function
         read = "(try (block (print (id %s))) (catch %s (block (print (int -1)))))" % (name, self.fresh())
         val = r.choice([100, 7, 42])
-        form = r.below(8)
+        form = r.below(10)
+        if form >= 8:
+            # shift AND shadow: between two evaluations of the same read, an eval()-made declaration in front shifts the slot of the outer variable
+            # (so the cached slot holds another name) and a second eval()-made declaration gives the inner block a variable of the same name:
+            # the stale hint must be dropped and the search must start again from the innermost scope
+            self.note("hint-shift-and-shadow")
+            f = "f%d" % self.next_fn
+            self.next_fn += 1
+            b, x, y, keep = self.fresh(), self.fresh(), self.fresh(), self.fresh()
+            self.funs[f] = 1
+            shift = "(if (bin == (id %s) (int 1)) (block (evalstr (decl %s (int 0)))))" % (b, y)
+            shadow = "(if (bin == (id %s) (int 1)) (block (evalstr (decl %s (int %d)))))" % (b, x, val)
+            if form == 9:      # the shadowing declaration is ordinary code in a conditional the parser cannot resolve either
+                shadow = "(if (bin == (id %s) (int 1)) (block (evalstr (decl %s (int %d)))))" % (b, x, val + 1)
+            body = ("(block %s (decl %s (int 1)) (block (decl %s (int 0)) %s (print (id %s)) (eq += (id %s) (int 1)) (print (id %s))) (print (id %s)) (id %s))"
+                    % (shift, x, keep, shadow, x, x, x, x, x))
+            calls = " ".join("(print (call (fid %s) (int %d)))" % (f, v) for v in r.choice([[0, 1], [0, 1, 0], [1, 0, 1], [0, 0, 1, 1]]))
+            return "(block (noop)) (def %s (%s) %s) %s" % (f, b, body, calls)
         if form >= 6:
             # direct shadowing: an inner block declares the NAME of a variable of the enclosing block (at the same slot of its scope);
             # reads and writes in the inner block, evaluated again and again (function called several times / loop), must reach the inner one
